@@ -48,10 +48,37 @@ cache_linear_solution, root solver {runonce, lnbgs, lnbj, krylov, direct}.  Call
   in use (uncolored / colored-fwd / colored-rev / bidirectional) and the direction of the solve, so that the evidence
   counts bidirectional colorings actually used, their fwd/rev solves and the systems relevance skipped DURING them.
 
+Family `hist` (omv/gen/c24_hist.py): HISTORIES on ONE Problem object; every step of the history is compared
+twin-on == twin-off == closed form (NumPy; units that OpenMDAO differentiates by finite differences are differentiated
+in the reference by the same difference formula on the closed-form unit function, so only a bounded round-off separates
+the two).  Model: 2..4 branches (own design variable, chain of elementwise components, one-directional cross links, an
+optional linear two-component cycle under NLBGS/Newton, a component fed by a non-design source, dead ends, a scalar
+`row` response), components analytic / matrix-free / implicit (solve_linear, apply_linear) / with fd or cs partials,
+sub-groups nested to depth 2 with their own linear solvers, (sub-)groups with approx_totals(fd|cs), root approx_totals
+with or without a driver coloring; fwd / rev.
+  class `errpath` - an error path inside a derivative computation, then reuse of the problem: a FAULT is armed (a
+    component hook raises AnalysisError / RuntimeError at its n-th call: compute_jacvec_product, apply_linear,
+    solve_linear [inside the per-seed linear solve], compute_partials / linearize, a zero dR/dy under a DirectSolver
+    [inside the linearization], compute [inside a driver's model run or inside the finite-difference run of an
+    approximated group]; or the linear solver of the cycle gets maxiter=2 and err_on_non_converge=True) and one of
+    prob.compute_totals() / compute_totals(of, wrt) / driver._compute_totals() / check_totals() / run_driver() (SLSQP;
+    the driver re-raises what its callbacks swallowed) is called - optionally after a first successful derivative
+    computation; the component sits in the first / a middle / the last seed's cone.  The caller catches the exception,
+    disarms the fault (restores the solver options), moves OTHER design variables (or all), and goes on: run_model,
+    outputs, compute_totals() / driver._compute_totals() / explicit totals, optionally run_driver (final design must
+    be a stationary point of the closed-form model like the disabled twin's) or a third point.
+  class `seq` - a sequence of 5..7 derivative requests with DIFFERENT of/wrt on the same problem (two explicit subsets
+    around different design variables, their union, the driver's variables through prob.compute_totals() /
+    driver._compute_totals() / check_totals(), a repetition; random order; optionally a new point in between) on
+    models with approximated units (group approx_totals at depth 1 or 2, components with fd/cs partials, root approx
+    with / without coloring): what an approximated unit perturbs is selected by the relevance of a request and has to be
+    selected again for the next one.
+  Requests never contain a seed without counterpart (dead seeds are a listed mechanism of their own).
+
 Besides values, a solver that reports non-convergence ONLY in the enabled twin is a violation (observable: failure
 message, wasted iterations, AnalysisError under err_on_non_converge=True); such failures are classified by the seed that
 was active (`dead-seed`: the seed has no counterpart in the jacobian being computed; `live-seed:mixed-stack` /
-`live-seed:mixed-stack-sibling` / `live-seed:uniform-stack`, see _fail_class) so that each mechanism has its own key.
+`live-seed:mixed-stack-sibling` / `live-seed:hollow-group` / `live-seed:uniform-stack`, see _fail_class) so that each mechanism has its own key.
 A linear solver's failure report whose last monitored residual is at round-off level (FLOOR_REL / FLOOR_ABS below) is
 NOT such an observation: the generators ask for tolerances of 1e-13 .. 1e-15, which double precision does not guarantee;
 these reports are counted (`obs:roundoff-floor-failure-reports-not-judged:*`) and not judged.
@@ -86,11 +113,30 @@ RULE = ('totals family: two random G specs merged into one model (disjoint cones
         'dense columns spread over 2-7 components (shape arrow/diagcol/diagrow/block/random) x total coloring '
         '{dynamic, fixed object, fixed file} x {direct, substitution} x setup mode {auto,fwd,rev} x root linear solver x '
         'sub-groups x indices x cache_linear_solution, call sequence problem totals / driver totals / explicit '
-        'uncoloured totals / second point, every 4th case a convex SLSQP run.  distinct = fingerprint(model features, solver stack, cell, plan shape); non-trivial = '
+        'uncoloured totals / second point, every 4th case a convex SLSQP run; hist family: histories on one problem '
+        '(branch models with cycle / sub-groups to depth 2 / matrix-free, implicit, fd- and cs-approximated components '
+        '/ groups with approx_totals) - class errpath: injected fault {jacvec, apply_linear, solve_linear, linearize, '
+        'singular dR/dy, compute, linear solver maxiter+err_on_non_converge} x API {compute_totals(), explicit of/wrt, '
+        'driver._compute_totals, check_totals, run_driver} x seed position x fwd/rev, then recovery, other design '
+        'variables moved, run_model / totals / optional run_driver judged; class seq: 5-7 requests with different '
+        'of/wrt (subsets, union, driver variables, repetition) over approximated units.  distinct = fingerprint(model features, solver stack, cell, plan shape); non-trivial = '
         'relevance answered "irrelevant" at least once in the enabled twin (something was really pruned) and all '
         'solvers reported convergence')
 MIN_JUDGED = {'quick': 250, 'thorough': 2500}
-REQUIRED_COUNTERS = ['obs:arrow-twins', 'obs:arrow-computes:bidirectional', 'obs:arrow-solves:bidirectional:fwd',
+REQUIRED_COUNTERS = ['obs:hist-errpath-twins', 'obs:hist-seq-twins', 'obs:errpath-fault-raised-in-both-twins',
+                     'obs:errpath-fault-inside-per-seed-solve', 'obs:errpath-values-after-fault',
+                     'obs:errpath-totals-after-fault', 'obs:errpath-fault-not-in-first-derivative-computation',
+                     'cell:errpath-site=jacvec', 'cell:errpath-site=solve_linear', 'cell:errpath-site=apply_linear',
+                     'cell:errpath-site=linearize', 'cell:errpath-site=compute', 'cell:errpath-site=ln-maxiter',
+                     'cell:errpath-api=problem', 'cell:errpath-api=explicit', 'cell:errpath-api=driver',
+                     'cell:errpath-api=check', 'cell:errpath-api=run_driver', 'cell:errpath-seedpos=first',
+                     'cell:errpath-seedpos=middle', 'cell:errpath-seedpos=last', 'cell:errpath-mode=fwd',
+                     'cell:errpath-mode=rev', 'cell:errpath-moved=others', 'obs:hist-opt-twins',
+                     'obs:seq-requests', 'cell:seq-api=explicit', 'cell:seq-api=problem', 'cell:seq-api=driver',
+                     'cell:seq-first=explicit', 'cell:seq-first=problem', 'obs:hist-approx-unit:group-fd',
+                     'obs:hist-approx-unit:group-cs', 'obs:hist-approx-unit:comp-fd', 'obs:hist-approx-unit:comp-cs',
+                     'cell:hist-approx-group-depth=1', 'cell:hist-approx-group-depth=2',
+                     'obs:arrow-twins', 'obs:arrow-computes:bidirectional', 'obs:arrow-solves:bidirectional:fwd',
                      'obs:arrow-solves:bidirectional:rev', 'obs:arrow-systems-pruned:bidirectional:rev-solve',
                      'obs:arrow-systems-pruned:bidirectional:fwd-solve', 'obs:bidir-primary=fwd',
                      'obs:arrow-computes:colored-fwd', 'obs:arrow-computes:colored-rev',
@@ -120,6 +166,18 @@ ASSUMPTIONS = ['a solver failure reported only by the relevance-enabled twin cou
                'an iterative solver cannot converge by construction); optimisation variant: the disabled twin is the '
                'baseline only if it reports success and its final design satisfies the KKT conditions of the '
                'closed-form model to 1e-5; a different exit flag at the same final design is not a result difference',
+               'hist family: OpenMDAO\'s finite differences use the documented formulas (forward: (f(x+h)-f(x))/h with '
+               'f(x) = the current outputs / residuals, central: (f(x+h)-f(x-h))/2h, absolute step, every input of a '
+               'unit that is fed from outside perturbed separately); the reference applies the same formula to the '
+               'closed-form unit and allows 10x its round-off bound 4*eps*|f|/h per difference (propagated through '
+               'the chain rule); nonlinear solvers are asked for a residual of 1e-10 (a run pruned by relevance cannot '
+               'reduce residuals of the systems it skips below the level the last full run converged to); implicit '
+               'components are kept out of approximated groups (wrong sign with relevance on and off: not this '
+               'property); after a fault the steps of both twins are compared only while neither raises again; a '
+               'fault that only the disabled twin reaches (the enabled twin makes fewer calls of the hook) is no '
+               'difference; optimisation after a fault: the disabled twin must report success and end at a stationary '
+               'point of the closed-form model (projected gradient <= 1e-5), the enabled twin must end at the same '
+               'design (1e-4) or at another stationary point (<= 1e-4)',
                'optimizer twins are judged only if the disabled twin reports success and reaches the exact QP optimum '
                'to 5e-7 (validated baseline); no MPI (parallel_deriv_color is declared but has no parallel effect)']
 SHARD_TIMEOUT = {'quick': 1500, 'thorough': 5400}
@@ -140,14 +198,14 @@ ARROW_TOL_OPT = 1e-4
 
 def shards(tier, seed):
     if tier == 'quick':
-        n, nt, no, na = 16, 3, 4, 8
+        n, nt, no, na, nhe, nhs = 16, 3, 4, 8, 8, 6
     else:
-        n, nt, no, na = 64, 6, 8, 24
+        n, nt, no, na, nhe, nhs = 64, 6, 8, 24, 24, 16
     n = int(os.environ.get('OMV_C24_NSHARDS', n))      # development aid (sensitivity runs on a loaded machine)
     out = []
     for i in range(n):
         out.append({'seed': seed * 100000 + i * 1000, 'n_totals': nt, 'n_opt': no, 'n_coupled': 3 * no,
-                    'n_arrow': na, 'tier': tier,
+                    'n_arrow': na, 'n_hist_err': nhe, 'n_hist_seq': nhs, 'tier': tier,
                     'child': (tier == 'thorough' and i % 8 == 0)})
     return out
 
@@ -162,6 +220,13 @@ def run_shard(shard, acc):
     for k in range(shard.get('n_arrow', 0)):
         # every 4th case is the optimisation variant (short SLSQP run on a convex problem)
         run_case({'kind': 'arrow', 'seed': shard['seed'] + 800 + k, 'opt': k % 4 == 3,
+                  'tier': shard.get('tier', 'quick')}, acc)
+    for k in range(shard.get('n_hist_err', 0)):
+        # every 4th case ends with an optimisation (SLSQP) after the recovery
+        run_case({'kind': 'hist', 'cls': 'errpath', 'seed': shard['seed'] + 400 + k, 'opt': k % 4 == 3,
+                  'tier': shard.get('tier', 'quick')}, acc)
+    for k in range(shard.get('n_hist_seq', 0)):
+        run_case({'kind': 'hist', 'cls': 'seq', 'seed': shard['seed'] + 450 + k, 'opt': False,
                   'tier': shard.get('tier', 'quick')}, acc)
     if shard.get('child'):
         run_case({'kind': 'child', 'seed': shard['seed'] + 900, 'tier': shard.get('tier', 'quick')}, acc)
@@ -326,7 +391,9 @@ _FLOOR_REPORTS = [0, 0]     # floor-level reports not judged: [relevance-enabled
 
 class SeedFailureMonitor(FailureMonitor):
     """FailureMonitor that also records the derivative seed variable(s) active when a solver reported failure.
-    mon.failures: (solver class, message, seeds, mixed, full seeds, in-coloring, irrelevant-only residual)
+    mon.failures: (solver class, message, seeds, mixed, full seeds, in-coloring, irrelevant-only residual, hollow)
+      hollow = 'self' / 'below': the failing solver's group / a group below it is relevant for the active seeds as a
+          SYSTEM while none of its components is (see report_failure); False: no such group; None: unknown
       mixed = 'below'   : below the failing solver's system there is a group whose linear solver switches relevance
                           off (DirectSolver)
               'sibling' : no such group below, but elsewhere in the model there is one that takes part in the
@@ -445,8 +512,30 @@ class SeedFailureMonitor(FailureMonitor):
                 incol = slf._system()._problem_meta.get('coloring_randgen') is not None
             except Exception:
                 pass
+            hollow = None
+            try:
+                # white-box evidence for the `hollow-group` mechanism: the failing solver's group (or a group below
+                # it) counts as relevant for the active seeds although NONE of its components does - relevance of a
+                # group is (forward cone of the fwd seeds) & (backward cone of the rev seeds) on the level of SYSTEMS,
+                # one component puts the group into the first set, another one into the second
+                from openmdao.core.group import Group as _G
+                sys_ = slf._system()
+                rel = sys_._relevance
+                relsys = getattr(type(rel).is_relevant_system, '_omv_orig', type(rel).is_relevant_system)
+                hollow = False
+                if rel._active:
+                    for g in sys_.system_iter(include_self=True, recurse=True, typ=_G):
+                        if g.pathname and relsys(rel, g.pathname) and not any(
+                                relsys(rel, c.pathname) for c in g.system_iter(recurse=True)
+                                if not isinstance(c, _G)):
+                            hollow = 'self' if g is sys_ else 'below'
+                            break
+            except Exception:
+                if os.environ.get('OMV_DEBUG'):
+                    import traceback
+                    traceback.print_exc()
             last = _true_residual(slf)
-            rec = (type(slf).__name__, msg, seeds, mixed, full, incol, irr_only)
+            rec = (type(slf).__name__, msg, seeds, mixed, full, incol, irr_only, hollow)
             if isinstance(slf, LinearSolver) and last is not None and \
                     (last[1] <= FLOOR_REL or last[0] <= FLOOR_ABS):
                 mon.floor_failures.append(rec + (last,))
@@ -483,6 +572,10 @@ def _fail_class(failures, src2spec, dep):
                               elsewhere in the model (taking part in the solve for the active seed), and - where the
                               monitor can see the residual (block solvers) - what did not converge are only entries
                               of variables that are irrelevant for the active seed
+      live-seed:hollow-group  ... otherwise, and every failing solver sits on (or above) a group that is relevant for
+                              the active seeds as a system although none of its components is: its linear solver is
+                              called with a right-hand side (put there by a matrix-free component that fills d_inputs
+                              of an input which is irrelevant for the seed pair) that nothing in the group works on
       live-seed:uniform-stack neither."""
     def dead(f):
         seeds, full = f[2], f[4]
@@ -511,6 +604,8 @@ def _fail_class(failures, src2spec, dep):
         return 'live-seed:mixed-stack'
     if all(f[3] and (f[3] != 'sibling' or len(f) < 7 or f[6] is not False) for f in live):
         return 'live-seed:mixed-stack-sibling'
+    if all(len(f) > 7 and f[7] for f in live):
+        return 'live-seed:hollow-group'
     return 'live-seed:uniform-stack'
 
 
@@ -1727,7 +1822,7 @@ def _case_arrow(case, acc):
 # =====================================================================================================
 # family `hist`: histories on one Problem object (omv/gen/c24_hist.py)
 # =====================================================================================================
-HIST_TOL_VAL = 1e-9         # outputs: explicit formulas; cycle (|k m| < 0.5) by NLBGS/Newton with atol = rtol = 1e-12
+HIST_TOL_VAL = 1e-9         # outputs: explicit formulas; cycle (|k m| < 0.5, cond <= 2) by NLBGS/Newton to a residual <= 1e-10
 HIST_TOL_EXACT = 1e-9       # totals, direct / run-once stacks
 
 
@@ -1773,7 +1868,7 @@ def _hist_units(s):
             u.add(('root-' if not g['name'] else 'group-') + g['approx']['method'])
     for c in s['comps']:
         if c['kind'] == 'el' and c['impl'] in ('fd', 'cs'):
-            u.add('comp-' + c['impl'])
+            u.add('comp-' + ('fd+cs' if c.get('mix') else c['impl']))
     return sorted(u)
 
 
@@ -1805,7 +1900,10 @@ def _case_hist(case, acc):
 
     def KEY(what):
         if cls == 'seq':
-            return 'seq:%s:approx=%s:mode=%s' % (what, '+'.join(units) or 'none', s['mode'])
+            # mechanism = which level approximates (component partials / group semi-totals / root totals); the
+            # methods are in the message (tags)
+            lev = sorted(set(u.split('-')[0] for u in units))
+            return 'seq:%s:approx=%s:mode=%s' % (what, '+'.join(lev) or 'none', s['mode'])
         return 'errpath:%s:%s:mode=%s' % (what, fault_ctx[0], s['mode'])
     if off['exc'] is not None and on['exc'] is not None:
         acc.skip('both-twins-raise' if type(off['exc']) is type(on['exc']) else 'both-twins-raise-differently')
@@ -1987,6 +2085,8 @@ def _case_hist(case, acc):
             goff, zoff = stationarity(pt['off'])
             if not db['success'] or goff > 1e-5:
                 stop = 'baseline-optimizer-not-certified'
+                if os.environ.get('OMV_DEBUG'):
+                    print('baseline optimizer', case, db['success'], goff, db['iters'], file=sys.stderr)
                 break
             acc.count('obs:hist-opt-twins')
             acc.count('obs:opt-vs-exact-optimum')
@@ -2002,8 +2102,11 @@ def _case_hist(case, acc):
                                                                'success' if da['success'] else 'reports failure')))
     # ---- what was observed ---------------------------------------------------------------------------
     if stop and stop != 'viol' and not bad:
-        acc.skip(stop)
-        return
+        if judged_steps == 0:
+            acc.skip(stop)
+            return
+        # the history was cut short (by something that is not this property's matter); the steps before are judged
+        acc.count('obs:hist-truncated:%s' % stop.split(' ')[0])
     acc.count('obs:hist-twins')
     acc.count('obs:hist-%s-twins' % cls)
     ps, pv = on['pruned']
@@ -2047,6 +2150,11 @@ def _case_hist(case, acc):
 # thorough: twins in a subprocess with the documented switch OPENMDAO_NO_RELEVANCE=1
 # =====================================================================================================
 def _case_child(case, acc):
+    _case_child_totals(case, acc)
+    _case_child_hist(case, acc)
+
+
+def _case_child_totals(case, acc):
     """The in-process disabled twin and a process started with OPENMDAO_NO_RELEVANCE=1 must give the same totals
     (validates the harness' way of disabling relevance against the documented switch) and the enabled twin must
     agree with both."""
@@ -2099,6 +2207,76 @@ def _case_child(case, acc):
                      dict(case, sub=k))
         else:
             acc.ok(fingerprint(['child', tree_solvers(spec), mode]), nontrivial=sum(on['pruned']) > 0)
+
+
+def _case_child_hist(case, acc):
+    """A whole history of family `hist` in a process started with OPENMDAO_NO_RELEVANCE=1: the in-process disabled twin
+    must agree with it step by step (validates the harness' way of disabling relevance for histories too), and so must
+    the enabled twin."""
+    from omv.gen import c24_hist as H
+    for k, cls in enumerate(('errpath', 'seq')):
+        seed = case['seed'] + 10 + k
+        rng = random.Random(seed)
+        s = H.gen_hist_spec(rng, cls, opt=False)
+        steps, info = H.gen_history(rng, s)
+        env = dict(os.environ, OPENMDAO_NO_RELEVANCE='1')
+        try:
+            p = subprocess.run([sys.executable, '-m', 'omv.kit.c24_child'], input=json.dumps(
+                {'kind': 'hist', 'cls': cls, 'seed': seed, 'opt': False}).encode(), env=env,
+                stdout=subprocess.PIPE, stderr=subprocess.PIPE, timeout=600)
+            line = [ln for ln in p.stdout.decode().splitlines() if ln.startswith('C24-CHILD ')]
+            if not line:
+                acc.skip('child-failed')
+                continue
+            r = json.loads(line[-1][len('C24-CHILD '):])
+        except subprocess.TimeoutExpired:
+            acc.skip('child-timeout')
+            continue
+        on = _run_hist_twin(s, steps, norel=False)
+        off = _run_hist_twin(s, steps, norel=True)
+        if r.get('exc') or on['exc'] is not None or off['exc'] is not None:
+            acc.skip('both-twins-raise' if (r.get('exc') and on['exc'] is not None) else 'child-exception-mismatch')
+            continue
+        if not r['env_flag'] or r['pruned'] != [0, 0]:
+            acc.skip('HARNESS-child-not-disabled')
+            continue
+        if any(r['nfail']) or any(on['nfail']) or any(off['nfail']):
+            pass        # failure reports of the armed linear solver belong to the fault step
+        iterative = any(g['ln'] in ('lnbgs', 'lnbj', 'krylov') for g in H.iter_groups(s))
+        fd = bool(_hist_units(s))
+        tol = 1e-6 if fd else (TOL_ITER if iterative else HIST_TOL_EXACT)
+
+        def diff(a, c):
+            """largest relative difference between an in-process step result and the child's (inf: different kinds
+            of result, e.g. exception vs value)"""
+            if a is None and c is None:
+                return 0.0
+            if not isinstance(a, dict) or not isinstance(c, dict):
+                return np.inf
+            if 'exc' in a or 'exc' in c:
+                return 0.0 if ('exc' in a and 'exc' in c and type(a['exc']).__name__ == c['exc']) else np.inf
+            if 'values' in a and 'values' in c:
+                return max(_relerr(a['values'][n], np.asarray(c['values'][n])) for n in a['values'])
+            if 'J' in a and 'J' in c:
+                return _relerr(a['J'], np.asarray(c['J']))
+            if 'driver' in a and 'driver' in c:
+                return max(_relerr(a['driver']['x'][n], np.asarray(c['driver']['x'][n])) for n in a['driver']['x'])
+            return np.inf
+        cs = r['steps'] + [None] * (len(steps) - len(r['steps']))
+        doff = [diff(off['steps'][i], cs[i]) for i in range(len(steps)) if steps[i]['op'] != 'disarm']
+        if max(doff) > tol:
+            acc.skip('HARNESS-inprocess-twin-differs-from-env-switch')
+            continue
+        acc.count('obs:child-hist-twins')
+        don = [(i, diff(on['steps'][i], cs[i])) for i in range(len(steps)) if steps[i]['op'] != 'disarm']
+        worst = max(don, key=lambda t: t[1])
+        if worst[1] > tol:
+            st = steps[worst[0]]
+            acc.viol('child:hist-%s:%s' % (cls, st.get('api') or st['op']),
+                     'step %d (%s) with relevance differs from a process run with OPENMDAO_NO_RELEVANCE=1: %.3e %r'
+                     % (worst[0], st.get('api') or st['op'], worst[1], info), dict(case, sub='hist-%d' % k))
+        else:
+            acc.ok(fingerprint(['child-hist', H.hist_tags(s), sorted(info.items())]), nontrivial=sum(on['pruned']) > 0)
 
 
 def coverage_extra(tier, agg):
